@@ -12,3 +12,13 @@ open SteelVerif.C09
 #print axioms frames_never_exceed_limit
 #print axioms tail_loop_any_count
 #print axioms deep_recursion_overflows
+#print axioms SteelVerif.C09C.tail_positions_marked_core
+#print axioms SteelVerif.C09C.nontail_app_is_func
+#print axioms SteelVerif.C09C.step_frames_core
+#print axioms SteelVerif.C09C.core_tail_loop_any_count
+#print axioms SteelVerif.C09C.frames_never_exceed_limit_core
+#print axioms SteelVerif.C09C.call_at_limit_overflows_core
+#print axioms SteelVerif.C09C.tail_call_never_overflows_core
+#print axioms SteelVerif.C09C.runLimited_eq_run
+#print axioms SteelVerif.C09C.core_tail_loop_never_overflows
+#print axioms SteelVerif.C09C.deep_recursion_errors_core
